@@ -90,7 +90,7 @@ theorem lowerBound_nil (q : Bytes) : lowerBound [] q = 0 := rfl
 theorem lowerBound_cons (e : Entry) (es : List Entry) (q : Bytes) :
     lowerBound (e :: es) q = if e.1 < q then lowerBound es q + 1 else 0 := by
   unfold lowerBound
-  by_cases h : e.1 < q <;> simp [List.takeWhile_cons, h]
+  by_cases h : e.1 < q <;> simp [h]
 
 theorem lowerBound_le (es : List Entry) (q : Bytes) : lowerBound es q ≤ es.length := by
   unfold lowerBound
@@ -171,7 +171,7 @@ theorem lowerBound_split_asc {es : List Entry} (hasc : StrictAsc es) (q : Bytes)
 theorem upperBound_cons (e : Entry) (es : List Entry) (q : Bytes) :
     upperBound (e :: es) q = if e.1 ≤ q then upperBound es q + 1 else 0 := by
   unfold upperBound
-  by_cases h : e.1 ≤ q <;> simp [List.takeWhile_cons, h]
+  by_cases h : e.1 ≤ q <;> simp [h]
 
 theorem upperBound_append_of_all_le {a : List Entry} (b : List Entry) {q : Bytes}
     (h : ∀ e ∈ a, e.1 ≤ q) : upperBound (a ++ b) q = a.length + upperBound b q := by
@@ -209,7 +209,7 @@ theorem upperBound_eq {es : List Entry} (hasc : StrictAsc es) (q : Bytes) :
           have hy : x.1 < y.1 := (strictAsc_cons.1 (StrictAsc.right hasc)).1 y (by simp)
           have : ¬ y.1 ≤ q := bnot_le.2 (hxq ▸ hy)
           simp [upperBound_cons, this]
-      simp [upperBound_cons, hxq, ble_refl, hb]
+      simp [upperBound_cons, hxq, hb]
     · have : ¬ x.1 ≤ q := fun h => hxq (ble_antisymm h hx)
       simp [upperBound_cons, this, hxq]
 
@@ -223,9 +223,9 @@ theorem ceiling_eq_getElem? (es : List Entry) (q : Bytes) :
     unfold ceiling at ih ⊢
     by_cases he : e.1 < q
     · have : ¬ q ≤ e.1 := bnot_le.2 he
-      simp [List.find?_cons, this, lowerBound_cons, he, ih]
+      simp [this, lowerBound_cons, he, ih]
     · have : q ≤ e.1 := bnot_lt.1 he
-      simp [List.find?_cons, this, lowerBound_cons, he]
+      simp [this, lowerBound_cons, he]
 
 theorem findIdx?_ge (es : List Entry) (q : Bytes) :
     es.findIdx? (fun e => decide (q ≤ e.1)) =
@@ -311,7 +311,7 @@ theorem lookup_eq (es : List Entry) (hasc : StrictAsc es) (q : Bytes) :
   | cons x b =>
     simp only [List.getElem?_append_right (Nat.le_refl _), Nat.sub_self, List.getElem?_cons_zero]
     by_cases hxq : x.1 = q
-    · simp [List.find?_cons, hxq, Option.filter]
+    · simp [hxq, Option.filter]
     · have hb : b.find? (fun e => decide (e.1 = q)) = none := by
         rw [List.find?_eq_none]
         intro y hy
@@ -320,7 +320,7 @@ theorem lookup_eq (es : List Entry) (hasc : StrictAsc es) (q : Bytes) :
         have : q < y.1 := blt_of_le_of_lt h2 h1
         simp only [decide_eq_true_eq]
         intro hyq; exact blt_irrefl q (hyq ▸ this)
-      simp [List.find?_cons, hxq, Option.filter, hb]
+      simp [hxq, Option.filter, hb]
 
 theorem upperBound_split_asc {es : List Entry} (hasc : StrictAsc es) (q : Bytes) :
     ∃ a b, es = a ++ b ∧ a.length = upperBound es q ∧ (∀ e ∈ a, e.1 ≤ q) ∧ (∀ e ∈ b, q < e.1) := by
@@ -356,6 +356,6 @@ theorem floor_eq (es : List Entry) (hasc : StrictAsc es) (q : Bytes) :
   rcases List.eq_nil_or_concat a with rfl | ⟨a', x, rfl⟩
   · simp
   · have hx : x.1 ≤ q := h3 x (by simp)
-    simp [List.find?_cons, hx]
+    simp [hx]
 
 end Grenad.TCursor
